@@ -281,7 +281,9 @@ class RollMux(Spawner):
         hA = Implies(And(0 <= t1, t1 < D, a1 != -1), And(opn(a1), cellof(a1) == pos(t1)))
         hB = Implies(And(0 <= t2, t2 < D, a2 != -1), And(opn(a2), cellof(a2) == pos(t2)))
         goal = Implies(And(0 <= t1, t1 < t2, t2 < D, a1 != -1, a2 != -1), a1 < a2)
-        return ('close.in_opening_order', goal, {'hints': [hA, hB], 'lemmas': ['flush_order'], 'hint_lemmas': ['range']})
+        snd, _ = ring_inv(vW, N_)
+        return ('close.in_opening_order', goal, {'hints': [hA, hB], 'pc_instances': [(snd, [pos(t1)]), (snd, [pos(t2)])], 'lemmas': [],
+                                                 'lemma_instances': [('flush_order', [N_, a1, a2, t1, t2])], 'hint_lemmas': ['range']})
 
     def all_closed_clause(self, c, q):
         """every cell of the ring is free after the flush; proved for an arbitrary cell `osk` with two explicit instances as hints
@@ -296,8 +298,10 @@ class RollMux(Spawner):
         goal = Implies(inrange, And(cell(vw, osk) == -1, Select(mw, BASE + osk) == M_SET))
         t = Int('ft')
         exit_inv = ForAll([t], Implies(And(0 <= t, t < If(D > 0, D, 0)), cell(vw, pos(t)) == -1))    # `visited_closed` at loop exit
-        return ('ring.all_closed', goal, {'defs': [tstar == divs(a) - Q + D], 'hints': [h1, h3], 'pc_instances': [(exit_inv, [tstar])],
-                                          'lemmas': ['range'], 'hint_lemmas': ['range', 'flush_visits_open', 'mul_nonneg']})
+        snd, _ = ring_inv(vW, N_)
+        return ('ring.all_closed', goal, {'defs': [tstar == divs(a) - Q + D], 'hints': [h1, h3], 'pc_instances': [(exit_inv, [tstar]), (snd, [osk])],
+                                          'lemmas': ['range'], 'hint_lemmas': ['range', 'mul_nonneg'],
+                                          'hint_lemma_instances': [('flush_visits_open', [N_, a])]})
 
     def on_other(self, c, q):
         return [('emits', c.emits(q, em(OUT, Ev.Other(c.eng.to_val(q, c.foreign)))))] + [(f'slot{st.ord}.untouched', c.frame(q, st)) for st in c.states]
